@@ -32,6 +32,7 @@ comments, the champion arrays of __init__ ...) are ignored outside the walked lo
 from __future__ import annotations
 
 import ast
+import copy
 from pathlib import Path
 
 from .common import HEADER, body_no_doc, fail, find_func, parse
@@ -247,7 +248,21 @@ def skip_stmt(s):
         return True
     if isinstance(s, ast.Expr) and isinstance(s.value, ast.Constant):
         return True
+    # logging / warnings / print of values that are only READ (names, attributes, items, literals, f-strings)
+    if isinstance(s, ast.Expr) and isinstance(s.value, ast.Call):
+        c, f = s.value, s.value.func
+        log = (isinstance(f, ast.Attribute) and f.attr in LOG_METHODS
+               and u(f.value) in ("logging", "logger", "log", "_logger", "LOGGER", "self._log", "self._logger", "self.log",
+                                  "self.logger")
+               or u(f) in ("warnings.warn", "print"))
+        if log and all(isinstance(n, (ast.Constant, ast.JoinedStr, ast.FormattedValue, ast.Name, ast.Attribute,
+                                      ast.Subscript, ast.Load, ast.Tuple, ast.keyword))
+                       for a in list(c.args) + list(c.keywords) for n in ast.walk(a)):
+            return True
     return False
+
+
+LOG_METHODS = ("debug", "info", "warning", "error", "exception", "critical", "log")
 
 
 def assign_parts(s):
@@ -490,6 +505,9 @@ def set_bound(tree):
                 for k, e in enumerate(ap[0].elts):
                     env[e.id] = ("num", k, "LNone")
                 continue
+            if ap and is_name(ap[0]) and is_name(ap[1]) and env.get(ap[1].id, ("",))[0] == "num":
+                env[ap[0].id] = env[ap[1].id]          # a copy of a number (immutable): same value, same log10 state
+                continue
             if ap and is_name(ap[0]):
                 val = sb_value(ap[1], env, var)
                 if val is None:
@@ -544,6 +562,29 @@ def is_pow10(v, sub_dump):
     return False
 
 
+def pow10_exponent(v):
+    """np.power(10, <e>) | 10 ** <e>  ->  <e>"""
+    ten = lambda c: isinstance(c, ast.Constant) and c.value in (10, 10.0) and not isinstance(c.value, bool)  # noqa: E731
+    if isinstance(v, ast.Call) and u(v.func) in ("np.power", "numpy.power", "np.float_power") and len(v.args) == 2 \
+            and not v.keywords and ten(v.args[0]):
+        return v.args[1]
+    if isinstance(v, ast.BinOp) and isinstance(v.op, ast.Pow) and ten(v.left):
+        return v.right
+    return None
+
+
+def arr_slice(e, arr, env, var):
+    """<arr>[..., lo:hi] -> (linear form of lo, of hi) under the current integer environment, else None"""
+    if not (isinstance(e, ast.Subscript) and is_name(e.value, arr)):
+        return None
+    sl = e.slice
+    if not (isinstance(sl, ast.Tuple) and len(sl.elts) == 2 and isinstance(sl.elts[0], ast.Constant)
+            and sl.elts[0].value is Ellipsis and isinstance(sl.elts[1], ast.Slice)
+            and sl.elts[1].step is None and sl.elts[1].lower is not None and sl.elts[1].upper is not None):
+        return None
+    return (lin_of(sl.elts[1].lower, env, var), lin_of(sl.elts[1].upper, env, var))
+
+
 def convert(tree):
     fn = find_func(tree, "convert_to_parameters", CLS)
     params = [a.arg for a in fn.args.args]
@@ -591,7 +632,7 @@ def convert(tree):
             env = {k: v for k, v in env0.items()}
             env[a_name] = (0, 1, 0)
             site = None
-            ok = True
+            held = {}
             for s in line:
                 if skip_stmt(s):
                     continue
@@ -603,18 +644,25 @@ def convert(tree):
                             continue
                         ap = assign_parts(t)
                         if ap and isinstance(ap[0], ast.Subscript) and is_name(ap[0].value, arr):
-                            sl = ap[0].slice
-                            if not (isinstance(sl, ast.Tuple) and len(sl.elts) == 2 and isinstance(sl.elts[0], ast.Constant)
-                                    and sl.elts[0].value is Ellipsis and isinstance(sl.elts[1], ast.Slice)
-                                    and sl.elts[1].step is None and sl.elts[1].lower is not None
-                                    and sl.elts[1].upper is not None):
+                            dst = arr_slice(ap[0], arr, env, var)
+                            if dst is None:
                                 fail(t, "the exponentiated slice must be <array>[..., start:stop]")
-                            rhs_sub = ast.Subscript(value=ap[0].value, slice=sl, ctx=ast.Load())
-                            if not is_pow10(ap[1], ast.dump(rhs_sub).replace("Store()", "Load()")):
+                            ex = pow10_exponent(ap[1])
+                            if ex is None:
+                                fail(t, "the slice must be assigned 10 ** (the same slice)")
+                            src_sl = held.get(ex.id) if is_name(ex) else arr_slice(ex, arr, env, var)
+                            if src_sl != dst:
                                 fail(t, "the slice must be assigned 10 ** (the same slice)")
                             if site is not None:
                                 fail(t, "two exponentiations in one iteration")
-                            site = (lin_of(sl.elts[1].lower, env, var), lin_of(sl.elts[1].upper, env, var))
+                            site = dst
+                            continue
+                        # chunk = <array>[..., start:stop]   (a named intermediate: the slice it names is fixed here)
+                        if ap and is_name(ap[0]) and isinstance(ap[1], ast.Subscript) and is_name(ap[1].value, arr) \
+                                and arr_slice(ap[1], arr, env, var) is not None and ap[0].id not in env:
+                            if site is not None or ap[0].id in held:
+                                fail(t, "the working array is read again after it was exponentiated")
+                            held[ap[0].id] = arr_slice(ap[1], arr, env, var)
                             continue
                         if int_stmt(t, env, var):
                             continue
@@ -669,6 +717,26 @@ def is_deepcopy_of(e, name):
             and not e.keywords and is_name(e.args[0], name))
 
 
+def param_selection(v, env, var, one):
+    """parameter[i] | parameter[s:t] (| a copy of it) -> (Coq selection, does it depend on the running offset) or None"""
+    # a copy of the element / slice carries the same values (C06 repair: parameter[start:stop].copy())
+    if isinstance(v, ast.Call) and not v.keywords:
+        if isinstance(v.func, ast.Attribute) and v.func.attr == "copy" and not v.args:
+            v = v.func.value
+        elif isinstance(v.func, ast.Attribute) and is_name(v.func.value, "np") \
+                and v.func.attr in ("copy", "array") and len(v.args) == 1:
+            v = v.args[0]
+    if not (isinstance(v, ast.Subscript) and is_name(v.value, "parameter")):
+        return None
+    if isinstance(v.slice, ast.Slice):
+        if v.slice.step is not None or v.slice.lower is None or v.slice.upper is None:
+            fail(v, "the slice must be parameter[start:stop]")
+        lo, hi = lin_of(v.slice.lower, env, var), lin_of(v.slice.upper, env, var)
+        return f"(USlice {clin(one(lo))} {clin(one(hi))})", lo[1] or hi[1]
+    l = lin_of(v.slice, env, var)
+    return f"(UIndex {clin(one(l))})", l[1]
+
+
 def update(tree):
     fn = find_func(tree, "update_processor", CLS)
     params = [a.arg for a in fn.args.args]
@@ -705,8 +773,16 @@ def update(tree):
             env = dict(env0)
             env[a_name] = (0, 1, 0)
             sel = None
+            held = {}
             for s in line:
                 if skip_stmt(s):
+                    continue
+                ap = assign_parts(s)
+                if ap and is_name(ap[0]) and ap[0].id not in env and ap[0].id != target \
+                        and param_selection(ap[1], env, var, one) is not None:
+                    if ap[0].id in held:
+                        fail(s, "a selection of `parameter` is bound twice")
+                    held[ap[0].id] = param_selection(ap[1], env, var, one)
                     continue
                 if isinstance(s, ast.Expr) and isinstance(s.value, ast.Call) and isinstance(s.value.func, ast.Attribute) \
                         and s.value.func.attr == "set":
@@ -714,28 +790,19 @@ def update(tree):
                     if not is_name(c.func.value, target):
                         fail(s, ".set on something that is not the processor to be returned")
                     kws = {k.arg: k.value for k in c.keywords}
-                    if c.args or set(kws) != {"key", "value"} or not is_attr(kws["key"], var, "key"):
+                    for name, a in zip(("key", "value"), c.args):           # Processor.set(key, value)
+                        if name in kws:
+                            fail(s, ".set gets an argument twice")
+                        kws[name] = a
+                    if len(c.args) > 2 or set(kws) != {"key", "value"} or not is_attr(kws["key"], var, "key"):
                         fail(s, ".set must be called as set(key=var.key, value=...)")
                     v = kws["value"]
-                    # a copy of the element / slice carries the same values (C06 repair: parameter[start:stop].copy())
-                    if isinstance(v, ast.Call) and not v.keywords:
-                        if isinstance(v.func, ast.Attribute) and v.func.attr == "copy" and not v.args:
-                            v = v.func.value
-                        elif isinstance(v.func, ast.Attribute) and is_name(v.func.value, "np") \
-                                and v.func.attr in ("copy", "array") and len(v.args) == 1:
-                            v = v.args[0]
-                    if not (isinstance(v, ast.Subscript) and is_name(v.value, "parameter")):
+                    got = held.get(v.id) if is_name(v) else param_selection(v, env, var, one)
+                    if got is None:
                         fail(s, "the value set is not an element / slice of `parameter`")
                     if sel is not None:
                         fail(s, "two .set calls in one iteration")
-                    if isinstance(v.slice, ast.Slice):
-                        if v.slice.step is not None or v.slice.lower is None or v.slice.upper is None:
-                            fail(s, "the slice must be parameter[start:stop]")
-                        sel = f"(USlice {clin(one(lin_of(v.slice.lower, env, var)))} {clin(one(lin_of(v.slice.upper, env, var)))})"
-                        dep = lin_of(v.slice.lower, env, var)[1] or lin_of(v.slice.upper, env, var)[1]
-                    else:
-                        l = lin_of(v.slice, env, var)
-                        sel, dep = f"(UIndex {clin(one(l))})", l[1]
+                    sel, dep = got
                     continue
                 if int_stmt(s, env, var):
                     continue
@@ -771,19 +838,44 @@ def update(tree):
 def init_and_fitness(tree):
     init = find_func(tree, "__init__", CLS)
     # lower, upper = self._set_bound(); self._lower_boundaries = lower; self._upper_boundaries = upper
+    # data flow of the pair: names / attributes of self that hold the pair or its element k
     pair, attrs, procs_copy = None, {}, None
+    holds = {}                       # local name -> "pair" | 0 | 1
     for s in ast.walk(init):
         ap = assign_parts(s) if isinstance(s, (ast.Assign, ast.AnnAssign)) else None
         if not ap:
             continue
         t, v = ap
+        what = None
         if isinstance(v, ast.Call) and u(v.func) == "self._set_bound" and not v.args and not v.keywords:
-            if not (isinstance(t, ast.Tuple) and len(t.elts) == 2 and all(is_name(e) for e in t.elts)):
-                fail(s, "__init__: result of _set_bound() is not unpacked into two names")
-            pair = [e.id for e in t.elts]
-        elif isinstance(t, ast.Attribute) and is_name(t.value, "self") and is_name(v) and pair and v.id in pair:
-            attrs[t.attr] = pair.index(v.id)
-        elif is_name(t) and isinstance(v, ast.List) and len(v.elts) == 1 and isinstance(v.elts[0], ast.Call) \
+            what = pair = "pair"
+        elif is_name(v) and v.id in holds:
+            what = holds[v.id]
+        elif isinstance(v, ast.Subscript) and is_name(v.value) and holds.get(v.value.id) == "pair" \
+                and isinstance(v.slice, ast.Constant) and v.slice.value in (0, 1, -1, -2) \
+                and not isinstance(v.slice.value, bool):
+            what = v.slice.value % 2
+        if what is not None:
+            dests = [(t, what)]
+            if isinstance(t, ast.Tuple):
+                if what != "pair" or len(t.elts) != 2:
+                    fail(s, "__init__: result of _set_bound() is not unpacked into two parts")
+                dests = [(t.elts[0], 0), (t.elts[1], 1)]
+            for d, w in dests:
+                if is_name(d):
+                    if d.id in holds and holds[d.id] != w:
+                        fail(s, "__init__: a name holds two different parts of the result of _set_bound()")
+                    holds[d.id] = w
+                elif isinstance(d, ast.Attribute) and is_name(d.value, "self") and w != "pair":
+                    if d.attr in attrs and attrs[d.attr] != w:
+                        fail(s, "__init__: an attribute is assigned two different boundary lists")
+                    attrs[d.attr] = w
+                else:
+                    fail(s, "__init__: the result of _set_bound() goes somewhere that is not a listed shape")
+            continue
+        if is_name(t) and t.id in holds or isinstance(t, ast.Attribute) and is_name(t.value, "self") and t.attr in attrs:
+            fail(s, "__init__: a holder of the boundary lists is assigned something else")
+        if is_name(t) and isinstance(v, ast.List) and len(v.elts) == 1 and isinstance(v.elts[0], ast.Call) \
                 and u(v.elts[0].func) in ("deepcopy", "copy.deepcopy", "copy.copy", "copy"):
             if not (len(v.elts[0].args) == 1 and is_name(v.elts[0].args[0], "processor")):
                 fail(s, "__init__: copy of something that is not the processor")
@@ -823,12 +915,15 @@ def init_and_fitness(tree):
     for c in ast.walk(fit):
         if isinstance(c, ast.Call) and u(c.func) == "self.update_processor":
             n_upd += 1
-            kws = {k.arg: k.value for k in c.keywords}
-            if c.args or set(kws) != {"parameter", "processor"} or not is_name(kws["parameter"]):
-                fail(c, "fitness: update_processor must be called as update_processor(parameter=<name>, processor=...)")
-            if kws["parameter"].id in conv_names:
+            kws = bind_args(c, ("parameter", "processor"))
+            if kws is None:
+                fail(c, "fitness: update_processor must be called with (parameter, processor)")
+            pv = kws["parameter"]
+            if is_name(pv) and pv.id in conv_names or isinstance(pv, ast.Call) \
+                    and u(pv.func) == "self.convert_to_parameters" and len(pv.args) == 1 and not pv.keywords \
+                    and is_name(pv.args[0], x):
                 fit_converts = True
-            elif kws["parameter"].id == x:
+            elif is_name(pv, x):
                 fit_converts = False
             else:
                 fail(c, "fitness: update_processor gets neither the converted nor the raw decision vector")
@@ -863,18 +958,28 @@ def parameter_values(tree):
     if arr is None:
         fail(init, "ParameterValues.__init__: boundaries are not kept as np.array(boundaries, ...)")
     stored = 0
+    # names that hold the array (or None): the array's own name and plain copies of it
+    holders = {arr}
+    for _ in range(3):
+        for s, names in touching:
+            ap = assign_parts(s)
+            if ap and is_name(ap[0]) and is_name(ap[1]) and ap[1].id in holders:
+                holders.add(ap[0].id)
     for s, names in touching:
-        if arr not in names:
+        if not (holders & names):
             continue
         ap = assign_parts(s)
-        if ap and is_name(ap[0], arr):
+        if ap and is_name(ap[0]) and ap[0].id in holders:
             v = ap[1]
             if isinstance(v, ast.Constant) and v.value is None:
                 continue
-            if isinstance(v, ast.Call) and u(v.func) in ("np.array", "numpy.array"):
+            if isinstance(v, ast.Call) and u(v.func) in ("np.array", "numpy.array") and ap[0].id == arr:
+                continue
+            if is_name(v) and v.id in holders:
                 continue
             fail(s, "ParameterValues.__init__: the boundaries array is rebound after it was created")
-        if ap and isinstance(ap[0], ast.Attribute) and is_name(ap[0].value, "self") and is_name(ap[1], arr):
+        if ap and isinstance(ap[0], ast.Attribute) and is_name(ap[0].value, "self") and is_name(ap[1]) \
+                and ap[1].id in holders:
             if ap[0].attr != "_boundaries":
                 fail(s, "ParameterValues.__init__: the boundaries array is kept under another attribute")
             stored += 1
@@ -957,6 +1062,54 @@ def convert_arg(e):
     return None
 
 
+def bind_args(call, params, others=False):
+    """the arguments of a call by parameter name (positional in the order of `params`, or keywords) -> dict or None;
+    others: further keyword arguments are allowed"""
+    if len(call.args) > len(params) or any(isinstance(a, ast.Starred) for a in call.args):
+        return None
+    out = dict(zip(params, call.args))
+    for k in call.keywords:
+        if k.arg is None or k.arg in out:
+            return None
+        if k.arg in params:
+            out[k.arg] = k.value
+        elif not others:
+            return None
+    return out if set(out) == set(params) else None
+
+
+def single_defs(stmts):
+    """names bound exactly once in the statements (nested blocks included), by a plain `n = e` at the top level of
+    the list -> {n: e}.  (Data flow through such a name: what is stored under the name is the value of e.)"""
+    counts = {}
+    for s in stmts:
+        for n in ast.walk(s):
+            if isinstance(n, ast.Name) and isinstance(n.ctx, (ast.Store, ast.Del)):
+                counts[n.id] = counts.get(n.id, 0) + 1
+    out = {}
+    for s in stmts:
+        ap = assign_parts(s)
+        if ap and is_name(ap[0]) and counts.get(ap[0].id) == 1:
+            out[ap[0].id] = ap[1]
+    return out
+
+
+def deref(e, defs):
+    """follow single-assignment names to the expression they were bound to"""
+    seen = 0
+    while isinstance(e, ast.Name) and e.id in defs and seen < 20:
+        e, seen = defs[e.id], seen + 1
+    return e
+
+
+def root_name(e, defs):
+    """the first name of a chain of plain copies n1 = n2 = ... = <expression>"""
+    seen = 0
+    while is_name(e) and e.id in defs and is_name(defs[e.id]) and seen < 20:
+        e, seen = defs[e.id], seen + 1
+    return e.id
+
+
 def reporting(ar_tree, fd_tree):
     """-> (champion parameters are the conversion of the champion decisions,
            best parameters are the conversion of the best decisions,
@@ -964,16 +1117,14 @@ def reporting(ar_tree, fd_tree):
            the island's row handed to update_processor stays 1-D whatever its length)"""
     # ---- _get_champions
     fn = find_func(ar_tree, "_get_champions", ARCLS)
-    ds, names, stored = None, {}, {}
+    ds, stored = None, {}
+    defs = single_defs(body_no_doc(fn))
     for s in body_no_doc(fn):
         ap = assign_parts(s)
         if not ap:
             continue
         t, v = ap
-        if is_name(t) and isinstance(v, ast.Call) and u(v.func) in ("self._pygmo_archi.get_champions_x",
-                                                                    "self._pygmo_archi.get_champions_f"):
-            names[t.id] = u(v.func).rsplit(".", 1)[1]
-        elif isinstance(t, ast.Subscript) and is_name(t.value) and isinstance(t.slice, ast.Constant):
+        if isinstance(t, ast.Subscript) and is_name(t.value) and isinstance(t.slice, ast.Constant):
             ds = ds or t.value.id
             if t.value.id != ds:
                 fail(s, "_get_champions fills two datasets")
@@ -984,14 +1135,18 @@ def reporting(ar_tree, fd_tree):
     if not (isinstance(ret, ast.Return) and is_name(ret.value, ds)):
         fail(fn, "_get_champions must return the dataset it filled")
     dec = dataarray_arg(stored.get("champion_decision"))
-    if not (is_name(dec) and names.get(dec.id) == "get_champions_x"):
+    dec_v = deref(dec, defs)
+    if not (isinstance(dec_v, ast.Call) and u(dec_v.func) == "self._pygmo_archi.get_champions_x" and not dec_v.args
+            and not dec_v.keywords):
         fail(fn, "champion_decision is not the archipelago's get_champions_x()")
     par = dataarray_arg(stored.get("champion_parameters"))
     if par is None:
         fail(fn, "champion_parameters is not stored as a DataArray")
+    par = deref(par, defs)
     src = convert_arg(par)
     e = src if src is not None else par
-    if not (is_item(e, ds, "champion_decision") or is_name(e, dec.id)):
+    if not (is_item(e, ds, "champion_decision") or is_name(dec) and is_name(e)
+            and root_name(e, defs) == root_name(dec, defs)):
         fail(fn, "champion_parameters is not computed from champion_decision")
     champion = src is not None
     # ---- get_best_individuals
@@ -999,17 +1154,18 @@ def reporting(ar_tree, fd_tree):
     loops = [s for s in body_no_doc(fn) if isinstance(s, ast.For)]
     if len(loops) != 1:
         fail(fn, "get_best_individuals: expected one loop over the islands")
-    xs, conv, ds, stored = None, {}, None, {}
+    xs, ds, stored = None, None, {}
+    defs = single_defs(loops[0].body)
     for s in loops[0].body:
         ap = assign_parts(s)
         if not ap:
             continue
         t, v = ap
         if is_name(t) and isinstance(v, ast.Call) and isinstance(v.func, ast.Attribute) and v.func.attr == "get_x" \
-                and not v.args:
+                and not v.args and t.id in defs:
+            if xs is not None:
+                fail(s, "get_best_individuals reads two populations")
             xs = t.id
-        elif is_name(t) and convert_arg(v) is not None:
-            conv[t.id] = convert_arg(v)
         elif isinstance(t, ast.Subscript) and is_name(t.value) and isinstance(t.slice, ast.Constant) \
                 and str(t.slice.value).startswith("best_"):
             ds = ds or t.value.id
@@ -1022,9 +1178,8 @@ def reporting(ar_tree, fd_tree):
     par = dataarray_arg(stored.get("best_parameters"))
     if par is None:
         fail(fn, "best_parameters is not stored as a DataArray")
-    if is_name(par) and par.id in conv and is_name(conv[par.id], xs):
-        best = True
-    elif convert_arg(par) is not None and is_name(convert_arg(par), xs):
+    par = deref(par, {k: v for k, v in defs.items() if k != xs})
+    if convert_arg(par) is not None and is_name(convert_arg(par), xs):
         best = True
     elif is_name(par, xs):
         best = False
@@ -1034,9 +1189,10 @@ def reporting(ar_tree, fd_tree):
     fn = find_func(ar_tree, "run_evolve", ARCLS)
     calls = [c for c in ast.walk(fn) if isinstance(c, ast.Call)
              and u(c.func) == "self.problem.apply_parameters_to_processors"]
-    if len(calls) != 1 or calls[0].args or [k.arg for k in calls[0].keywords] != ["parameters"]:
+    kws = bind_args(calls[0], ("parameters",)) if len(calls) == 1 else None
+    if kws is None:
         fail(fn, "run_evolve: expected one apply_parameters_to_processors(parameters=...)")
-    a = calls[0].keywords[0].value
+    a = deref(kws["parameters"], single_defs(body_no_doc(fn)))
     if not (isinstance(a, ast.Subscript) and is_name(a.value) and isinstance(a.slice, ast.Constant)
             and a.slice.value in ("champion_parameters", "champion_decision")):
         fail(a, "run_evolve: the parameters applied at the end are not the champions'")
@@ -1059,54 +1215,59 @@ def reporting(ar_tree, fd_tree):
     upd = [c for c in ast.walk(ap_fn) if isinstance(c, ast.Call) and u(c.func) == "self.update_processor"]
     if len(upd) != 1:
         fail(ap_fn, "_apply_parameters: expected one call of update_processor")
-    kws = {k.arg: k.value for k in upd[0].keywords}
-    if upd[0].args or set(kws) != {"parameter", "processor"} or not is_name(kws["parameter"], "parameter") \
-            or not is_name(kws["processor"], "processor"):
+    kws = bind_args(upd[0], ("parameter", "processor"))
+    if kws is None or not is_name(kws["parameter"], "parameter") or not is_name(kws["processor"], "processor"):
         fail(upd[0], "_apply_parameters must call update_processor(parameter=parameter, processor=processor)")
-    newp = [assign_parts(s)[0].id for s in body_no_doc(ap_fn)
-            if assign_parts(s) and is_name(assign_parts(s)[0]) and assign_parts(s)[1] is upd[0]]
+    defs = single_defs(body_no_doc(ap_fn))
     runs = [c for c in ast.walk(ap_fn) if isinstance(c, ast.Call) and u(c.func) == "run_pipeline"]
-    if len(newp) != 1 or len(runs) != 1 or not any(k.arg == "processor" and is_name(k.value, newp[0])
-                                                     for k in runs[0].keywords):
+    if len(runs) != 1:
+        fail(ap_fn, "_apply_parameters: expected one call of run_pipeline")
+    rk = bind_args(runs[0], ("processor",), others=True)
+    if rk is None or deref(rk["processor"], defs) is not upd[0]:
         fail(ap_fn, "_apply_parameters: run_pipeline does not get the processor returned by update_processor")
     ap_all = find_func(fd_tree, "apply_parameters_to_processors", CLS)
     inner = [c for c in ast.walk(ap_all) if isinstance(c, ast.Call) and isinstance(c.func, ast.Call)
              and u(c.func.func) == "delayed" and len(c.func.args) == 1 and u(c.func.args[0]) == "self._apply_parameters"]
     if len(inner) != 1:
         fail(ap_all, "apply_parameters_to_processors: expected one delayed(self._apply_parameters)(...)")
-    kws = {k.arg: k.value for k in inner[0].keywords}
-    if "parameter" not in kws or not is_name(kws["parameter"]):
-        fail(inner[0], "apply_parameters_to_processors: parameter= is not a name")
-    pname, ok_param, grp, keeps_1d = kws["parameter"].id, False, None, False
+    kws = bind_args(inner[0], ("processor", "parameter"))
+    if kws is None:
+        fail(inner[0], "apply_parameters_to_processors: _apply_parameters is not called with (processor, parameter)")
+    ok_param, grp, keeps_1d = False, None, False
     for s in ast.walk(ap_all):
         if isinstance(s, ast.For) and isinstance(s.iter, ast.Call) and isinstance(s.iter.func, ast.Attribute) \
                 and s.iter.func.attr == "groupby" and is_name(s.iter.func.value, "parameters") \
                 and len(s.iter.args) == 1 and isinstance(s.iter.args[0], ast.Constant) and s.iter.args[0].value == "island" \
                 and isinstance(s.target, ast.Tuple) and len(s.target.elts) == 2 and is_name(s.target.elts[1]):
-            grp = s.target.elts[1].id
-    for s in ast.walk(ap_all):
-        ap = assign_parts(s) if isinstance(s, (ast.Assign, ast.AnnAssign)) else None
-        if ap and is_name(ap[0], pname):
-            # the island's row of `parameters` as a numpy array: <group>.squeeze().to_numpy() and variants
-            e = ap[1]
-            names_in = {n.id for n in ast.walk(e) if isinstance(n, ast.Name)}
-            calls = [c for c in ast.walk(e) if isinstance(c, ast.Call) and isinstance(c.func, ast.Attribute)]
-            attrs = {c.func.attr for c in calls}
-            ok_param = grp is not None and names_in <= {grp, "np"} and grp in names_in \
-                and attrs <= {"squeeze", "to_numpy", "asarray", "array", "ravel", "atleast_1d", "isel", "reshape"}
-            # a bare .squeeze() also drops a parameter axis of length one (-> 0-d array); the row stays 1-D when the
-            # squeeze names the island dimension, or the result is made 1-D again
-            bare = any(c.func.attr == "squeeze" and not c.args and not c.keywords for c in calls)
-            for c in calls:
-                if c.func.attr == "squeeze" and (c.args or c.keywords):
-                    dims = [u(a) for a in c.args] + [u(k.value) for k in c.keywords]
-                    if dims != ["'island'"]:
-                        ok_param = False
-                if c.func.attr == "isel" and (c.args or [k.arg for k in c.keywords] != ["island"]):
+            if grp is not None:
+                fail(s, "apply_parameters_to_processors: two loops over the islands")
+            grp, grp_loop = s.target.elts[1].id, s
+    if grp is not None:
+        # the island's row of `parameters` as a numpy array: <group>.squeeze().to_numpy() and variants, possibly through
+        # names bound once in the loop over the islands
+        from .c10_norm import Subst
+        defs = {k: v for k, v in single_defs(grp_loop.body).items() if k not in (grp, "np")}
+        e = kws["parameter"]
+        for _ in range(6):
+            e = Subst(defs).visit(copy.deepcopy(e))
+        names_in = {n.id for n in ast.walk(e) if isinstance(n, ast.Name)}
+        calls = [c for c in ast.walk(e) if isinstance(c, ast.Call) and isinstance(c.func, ast.Attribute)]
+        attrs = {c.func.attr for c in calls}
+        ok_param = names_in <= {grp, "np"} and grp in names_in \
+            and attrs <= {"squeeze", "to_numpy", "asarray", "array", "ravel", "atleast_1d", "isel", "reshape"}
+        # a bare .squeeze() also drops a parameter axis of length one (-> 0-d array); the row stays 1-D when the
+        # squeeze names the island dimension, or the result is made 1-D again
+        bare = any(c.func.attr == "squeeze" and not c.args and not c.keywords for c in calls)
+        for c in calls:
+            if c.func.attr == "squeeze" and (c.args or c.keywords):
+                dims = [u(a) for a in c.args] + [u(k.value) for k in c.keywords]
+                if dims != ["'island'"]:
                     ok_param = False
-                if c.func.attr == "reshape" and [u(a) for a in c.args] != ["-1"]:
-                    ok_param = False
-            keeps_1d = (not bare) or bool(attrs & {"atleast_1d", "ravel", "reshape"})
+            if c.func.attr == "isel" and (c.args or [k.arg for k in c.keywords] != ["island"]):
+                ok_param = False
+            if c.func.attr == "reshape" and [u(a) for a in c.args] != ["-1"]:
+                ok_param = False
+        keeps_1d = (not bare) or bool(attrs & {"atleast_1d", "ravel", "reshape"})
     if not ok_param:
         fail(ap_all, "apply_parameters_to_processors: the island's row of `parameters` is not what is applied")
     return champion, best, final, keeps_1d
@@ -1349,6 +1510,17 @@ def convert_values_norm(pv_tree):
                 fail(s, "convert_values: `if isinstance(values, ...): return ...` with an unlisted class / container")
             rules += [(c, k) for c in cs]
             continue
+        if isinstance(s, ast.For) and not s.orelse:
+            # a loop that fills a list built before it (`out = []` ... `out.append(x)`): the outer container is unchanged
+            stored = {n.id for n in ast.walk(s) if isinstance(n, ast.Name) and isinstance(n.ctx, (ast.Store, ast.Del))}
+            touched = [n for n in ast.walk(s) if isinstance(n, ast.Attribute) and is_name(n.value) and n.value.id in env]
+            if not (stored & (set(env) | {vname})) and all(env[n.value.id] == "KList" and n.attr in ("append", "extend")
+                                                           for n in touched) \
+                    and not any(isinstance(n, (ast.Return, ast.Subscript)) and (isinstance(n, ast.Return) or
+                                is_name(n.value) and n.value.id in env and isinstance(n.ctx, (ast.Store, ast.Del)))
+                                for n in ast.walk(s)):
+                continue
+            fail(s, "convert_values: loop is not a listed shape")
         if isinstance(s, ast.Return):
             default = container_of(s.value, env)
             if default is None:
@@ -1400,15 +1572,32 @@ def emit(rows, getter, sb, cv, up, init_copy, fit_conv, rep) -> str:
             f"Definition src_report : rp_desc := mkRp {cb(rep[0])} {cb(rep[1])} {cb(rep[2])} {cb(rep[3])}.\n")
 
 
+# functions the translator anchors on (read as they are, never inlined into their callers)
+ANCHORS = ("_set_bound", "convert_to_parameters", "update_processor", "_apply_parameters",
+           "apply_parameters_to_processors", "get_bounds", "fitness", "_get_champions", "get_best_individuals",
+           "run_evolve", "convert_values", "build_processors", "run_pipeline")
+
+
+def parse_norm(repo: Path, rel: str) -> ast.Module:
+    """the module after the behaviour-preserving normalisations of translator/c10_norm.py"""
+    from .c10_norm import normalise
+
+    tree = parse(repo, rel)
+    try:
+        return normalise(tree, repo, ANCHORS)
+    except Exception:  # noqa: BLE001  (the source is then read as it is written; unknown shapes fail closed)
+        return tree
+
+
 def translate(repo: Path) -> str:
-    fd = parse(repo, FD)
-    pv = parse(repo, PV)
+    fd = parse_norm(repo, FD)
+    pv = parse_norm(repo, PV)
     rows, getter = parameter_values(pv)
     sb = set_bound(fd)
     cv = convert(fd)
     up = update(fd)
     init_copy, fit_conv = init_and_fitness(fd)
-    rep = reporting(parse(repo, AR), fd)
+    rep = reporting(parse_norm(repo, AR), fd)
     return emit(rows, getter, sb, cv, up, init_copy, fit_conv, rep) + \
         emit_kinds(convert_values_norm(pv), sb["tests"], init_count(fd), cv[2]["tests"], up[2]["tests"])
 
